@@ -330,4 +330,99 @@ theorem ruleOk_sound (n : RuleNfa) (r : Rx) (h : ruleOk n r = true) :
     · intro hp; exact ⟨n.start, closure_sup n _ _ _ (by simp), hp⟩
   rw [e1, this, e2]
 
+/-! ### token rules: enumeration along a checked rank -/
+
+theorem wordsFrom_sound (n : RuleNfa) : ∀ (f q : Nat) (w : List Sym), w ∈ wordsFrom n f q → Path n q w n.stop := by
+  intro f
+  induction f with
+  | zero => intro q w h; simp [wordsFrom] at h
+  | succ f ih =>
+    intro q w h
+    simp only [wordsFrom, List.mem_append, List.mem_flatMap, List.mem_filter, List.mem_map] at h
+    rcases h with (h | ⟨e, ⟨he, hq⟩, hw⟩) | ⟨e, ⟨he, hq⟩, w', hw', rfl⟩
+    · by_cases hs : (q == n.stop) = true
+      · simp only [hs, if_true, List.mem_singleton] at h
+        subst h
+        have : q = n.stop := by simpa using hs
+        rw [this]; exact Path.refl _
+      · simp [hs] at h
+    · have hq' : e.1 = q := by simpa using hq
+      exact Path.eps (q' := e.2) (by rw [← hq']; exact he) (ih e.2 w hw)
+    · have hq' : e.1 = q := by simpa using hq
+      exact Path.sym (q' := e.2.2) (by rw [← hq']; exact he) (ih e.2.2 w' hw')
+
+theorem rankOk_spec (n : RuleNfa) (rk : List (Nat × Nat)) (h : rankOk n rk = true) :
+    (∀ a b, (a, b) ∈ n.eps → rankOf rk b < rankOf rk a) ∧ (∀ a s b, (a, s, b) ∈ n.edges → rankOf rk b < rankOf rk a) := by
+  simp only [rankOk, Bool.and_eq_true, List.all_eq_true, decide_eq_true_eq] at h
+  exact ⟨fun a b he => h.1 (a, b) he, fun a s b he => h.2 (a, s, b) he⟩
+
+theorem wordsFrom_complete (n : RuleNfa) (rk : List (Nat × Nat)) (h : rankOk n rk = true) :
+    ∀ (q : Nat) (w : List Sym) (r : Nat), Path n q w r → r = n.stop → ∀ f, rankOf rk q < f → w ∈ wordsFrom n f q := by
+  obtain ⟨h1, h2⟩ := rankOk_spec n rk h
+  intro q w r hp
+  induction hp with
+  | refl q =>
+    intro hr f hf
+    cases f with
+    | zero => omega
+    | succ f => simp [wordsFrom, hr]
+  | @eps a b c w he _ ih =>
+    intro hr f hf
+    cases f with
+    | zero => omega
+    | succ f =>
+      have := ih hr f (by have := h1 a b he; omega)
+      simp only [wordsFrom, List.mem_append, List.mem_flatMap, List.mem_filter]
+      exact Or.inl (Or.inr ⟨(a, b), ⟨he, by simp⟩, this⟩)
+  | @sym a b c s w he _ ih =>
+    intro hr f hf
+    cases f with
+    | zero => omega
+    | succ f =>
+      have := ih hr f (by have := h2 a s b he; omega)
+      simp only [wordsFrom, List.mem_append, List.mem_flatMap, List.mem_filter, List.mem_map]
+      exact Or.inr ⟨(a, s, b), ⟨he, by simp⟩, w, this, rfl⟩
+
+theorem usesUp_spec : ∀ (a rem : List (List Sym)), usesUp a rem = true → ∀ x, x ∈ a ↔ x ∈ rem
+  | [], rem, h => by
+    simp only [usesUp, List.isEmpty_iff] at h
+    subst h; intro x; simp
+  | w :: ws, rem, h => by
+    simp only [usesUp] at h
+    by_cases hw : w ∈ rem
+    · simp only [hw, if_true] at h
+      have ih := usesUp_spec ws (rem.erase w) h
+      intro x
+      constructor
+      · intro hx
+        rcases List.mem_cons.mp hx with rfl | hx
+        · exact hw
+        · exact List.mem_of_mem_erase ((ih x).mp hx)
+      · intro hx
+        by_cases e : x = w
+        · rw [e]; exact List.mem_cons_self
+        · exact List.mem_cons_of_mem _ ((ih x).mpr ((List.mem_erase_of_ne e).mpr hx))
+    · simp [hw] at h
+
+/-- **Soundness of `lexRuleOk`**: a token rule of the lexer ATN and the rule of the token table (regenerated from `Glycan.g4`)
+    accept the same character strings – for rules that are lists of literals, exactly those literals; for rules with character
+    ranges or a star (`NUM`), the same words over the joint alphabet. -/
+theorem lexRuleOk_sound (l : LexNfa) (r : LexRule) (h : lexRuleOk l r = true) :
+    l.ty = r.ty ∧
+    (∀ lits, literalsOf r = some lits → ∀ w, Path l.nfa l.nfa.start w l.nfa.stop ↔ w ∈ lits) ∧
+    (literalsOf r = none → ∀ w, (∀ s ∈ w, s ∈ alphabetOf l.nfa (rxOfRule r)) →
+      (Flat (rxOfRule r) w ↔ Path l.nfa l.nfa.start w l.nfa.stop)) := by
+  simp only [lexRuleOk, Bool.and_eq_true, beq_iff_eq] at h
+  obtain ⟨hty, hrest⟩ := h
+  refine ⟨hty, ?_, ?_⟩
+  · intro lits hl w
+    simp only [hl, Bool.and_eq_true] at hrest
+    obtain ⟨hrk, hsame⟩ := hrest
+    have hs := usesUp_spec _ _ hsame w
+    rw [← hs]
+    exact ⟨fun hp => wordsFrom_complete l.nfa l.rank hrk _ w _ hp rfl _ (Nat.lt_succ_self _), wordsFrom_sound l.nfa _ _ w⟩
+  · intro hl w hw
+    simp only [hl] at hrest
+    exact ruleOk_sound l.nfa (rxOfRule r) hrest w hw
+
 end Gly.Atn
